@@ -1075,6 +1075,7 @@ type sop struct {
 	Splits  int      `json:"splits,omitempty"`
 	Runners int      `json:"runners"`
 	States  [][]byte `json:"states,omitempty"`
+	Cursors [][2]int `json:"cursors,omitempty"` // embedded_restore: (split, cursor) reader states
 }
 
 func genStatic(r *hx.Rand, tier string) []*hx.Case {
@@ -1091,7 +1092,14 @@ func genStatic(r *hx.Rand, tier string) []*hx.Case {
 			mk(sop{Kind: "embedded", Splits: s, Runners: n})
 		}
 	}
-	mk(sop{Kind: "embedded_restore", Splits: 3, Runners: 2})
+	for k := 0; k < 12; k++ {
+		sp := r.Range(0, 6)
+		var cu [][2]int
+		for j := r.Range(0, sp+1); j > 0; j-- {
+			cu = append(cu, [2]int{r.Intn(sp + 2), r.Intn(500)})
+		}
+		mk(sop{Kind: "embedded_restore", Splits: sp, Runners: r.Range(1, 3), Cursors: cu})
+	}
 	for n := 0; n <= 4; n++ {
 		mk(sop{Kind: "http", Runners: n})
 		for k := 0; k < 4; k++ {
@@ -1147,16 +1155,38 @@ func execStatic(c *hx.Case) (*hx.Result, error) {
 	case "embedded_restore":
 		sp := embedded.NewSourceSplitter(embedded.SourceConfig{SplitCount: op.Splits}, runners, hooks)
 		panicked := false
+		var states [][]byte
+		var stt []string
+		for _, c := range op.Cursors {
+			states = append(states, []byte(fmt.Sprintf(`{"Cursor":%d,"SplitID":"%d"}`, c[1], c[0])))
+			stt = append(stt, hx.CoqPair(hx.CoqN(uint64(c[0])), hx.CoqN(uint64(c[1]))))
+		}
 		func() {
 			defer func() {
 				if p := recover(); p != nil {
 					panicked = true
 				}
 			}()
-			must(sp.Start(&snapshotpb.SourceCheckpoint{SplitStates: [][]byte{[]byte(`{"Cursor":20,"SplitID":"0"}`)}}))
+			must(sp.Start(&snapshotpb.SourceCheckpoint{SplitStates: states}))
 		}()
-		return &hx.Result{Term: fmt.Sprintf("(CEmbeddedRestore %d %d %s %s)", op.Splits, op.Runners, hx.CoqBool(panicked), groups()), Nontrivial: true,
-			Tags: []string{"embedded_restore", fmt.Sprintf("panicked=%v", panicked)}, Observed: panicked}, nil
+		var oc []string
+		for _, rid := range runners {
+			for _, x := range got[rid] {
+				n, err := strconv.Atoi(x.SplitId)
+				if err != nil {
+					n = 999999
+				}
+				cu := "None"
+				if len(x.Cursor) == 8 {
+					cu = fmt.Sprintf("(Some %d)", new(big.Int).SetBytes(x.Cursor).Uint64())
+				} else if len(x.Cursor) != 0 {
+					cu = "(Some 999999999)"
+				}
+				oc = append(oc, fmt.Sprintf("(%d, %s)", n, cu))
+			}
+		}
+		return &hx.Result{Term: fmt.Sprintf("(CEmbeddedRestore %d %d %s %s %s %s)", op.Splits, op.Runners, hx.CoqBool(panicked), hx.CoqList(stt, "N * N"), groups(), hx.CoqList(oc, "N * option N")), Nontrivial: len(op.Cursors) > 0,
+			Tags: []string{"embedded_restore", fmt.Sprintf("panicked=%v", panicked)}, Observed: map[string]any{"panicked": panicked, "cursors": oc}}, nil
 	case "http":
 		sp := httpapi.NewSourceSplitter(httpapi.SourceConfig{}, runners, hooks, make(chan error, 1))
 		var ck *snapshotpb.SourceCheckpoint
